@@ -15,3 +15,5 @@ func stack() []byte {
 	buf := make([]byte, 16<<10)
 	return buf[:runtime.Stack(buf, false)]
 }
+
+func bitsSW(n int) *bits.FixedSliceWriter { return bits.NewFixedSliceWriter(n) }
